@@ -263,6 +263,30 @@ func (p *c01) Init(tier string, seed int64) {
 			return pre + strings.Repeat(a+b, d)
 		})
 	}
+	// (vi'') flat chains: one cheap element repeated many times - stacked prefix operators, operator chains of either
+	// associativity, accessor and filter chains, elseif chains, runs of prints / comments / tags. Whatever the parser
+	// keeps per pending level (re-reads of the closing token, a look-ahead buffer, a counter) is exercised at depths
+	// no nesting ladder reaches in the quick tier.
+	{
+		depths := []int{600, 1500}
+		if p.thorough() {
+			depths = append(depths, 5000, 20000, 100000)
+		}
+		type ch struct{ pre, rep, post string }
+		chains := []ch{
+			{"{{ ", "not ", "a }}"}, {"{{ ", "-", "a }}"}, {"{{ ", "- ", "1 }}"}, {"{{ ", "+", "a }}"}, {"{% if ", "not ", "a %}x{% endif %}"}, {"{% if ", "-", "a %}x{% endif %}"},
+			{"{{ a", " ** a", " }}"}, {"{{ a", " + a", " }}"}, {"{{ a", " ~ 'x'", " }}"}, {"{{ a", " and a", " }}"}, {"{{ a", " == a", " }}"}, {"{{ a", " is pos", " }}"}, {"{{ a", " in a", " }}"}, {"{{ a", "..a", " }}"},
+			{"{{ a", ".b", " }}"}, {"{{ a", "[0]", " }}"}, {"{{ a", "|f", " }}"}, {"{{ a", "|f(1)", " }}"}, {"{{ a", ".m()", " }}"}, {"{{ ", "a ? b : ", "c }}"}, {"{{ ", "a ? ", "b" + " }}"},
+			{"{{ [", "1, ", "1] }}"}, {"{{ {", "a: 1, ", "b: 2} }}"}, {"{{ f(", "1, ", "1) }}"}, {"{{ \"", "#{a}", "\" }}"}, {"{{ \"", "x#{a ~ 'y'}", "z\" }}"}, {"{{ '", "ab", "' }}"}, {"{{ ", "1", " }}"}, {"{{ ", "ab", " }}"},
+			{"{% if a %}x", "{% elseif a %}y", "{% endif %}"}, {"", "{{ a }}", ""}, {"", "{# c #}", ""}, {"", "{% set v = 1 %}", ""}, {"", "{% if a %}x{% endif %}", ""}, {"", "{% block b %}x{% endblock %}{% do 1 %}", ""},
+			{"{% set v = ", "not ", "a %}"}, {"{% for i in ", "-", "a %}x{% endfor %}"}, {"{% include ", "'a' ~ ", "'b' %}"}, {"{% macro m(", "p, ", "q) %}x{% endmacro %}"}, {"{% from 'l' import ", "a as b, ", "c %}"}, {"{% use 'l' with ", "a as b, ", "c as d %}"},
+		}
+		n := len(chains) * len(depths)
+		p.add("chain", n, func(i int) string {
+			c := chains[i/len(depths)]
+			return c.pre + strings.Repeat(c.rep, depths[i%len(depths)]) + c.post
+		})
+	}
 	// (vi) nesting ladders
 	{
 		depths := []int{1, 2, 3, 5, 10, 50, 200}
@@ -444,7 +468,7 @@ func fragShape(s string) string {
 }
 
 func (p *c01) Rule() string {
-	return "inputs: every byte prefix of the seed corpus (repo tests/examples/testdata + hand-written, one per tag/operator); single-fragment deletion, duplication and insertion at every fragment boundary of every corpus template; bounded-exhaustive sequences over a 26-fragment hostile alphabet (length<=3 quick, <=5 thorough); seeded random byte / delimiter-alphabet / fragment strings; hostile bytes (NUL, 0xFF, truncated UTF-8, CR, CRLF, FF, VT, ESC, DEL, NEL, NBSP, BOM, ZWSP, U+2028/9) substituted at corpus positions; every byte value 0..255 substituted and inserted at every position of 8 short templates (one per tokeniser mode); every single-fragment mutant again inside 11 wrappers (embed body, embed block, macro, block, capture, verbatim, comment, interpolation, if/else, for, filter); unclosed alternations of every pair of 12 openers (quote, #{, brackets, delimiters ...) to depth 60 / 3000; nesting ladders (balanced, open-only and close-only, incl. strings nested in interpolations) to depth 200 (quick) / 9000 (thorough). Each input goes through parse.Parse, core Env.Parse and Twig Env.Parse (3 evaluations). Non-trivial = contains an opening delimiter; distinct = (error kind with numbers stripped, first 12 fragment classes)."
+	return "inputs: every byte prefix of the seed corpus (repo tests/examples/testdata + hand-written, one per tag/operator); single-fragment deletion, duplication and insertion at every fragment boundary of every corpus template; bounded-exhaustive sequences over a 26-fragment hostile alphabet (length<=3 quick, <=5 thorough); seeded random byte / delimiter-alphabet / fragment strings; hostile bytes (NUL, 0xFF, truncated UTF-8, CR, CRLF, FF, VT, ESC, DEL, NEL, NBSP, BOM, ZWSP, U+2028/9) substituted at corpus positions; every byte value 0..255 substituted and inserted at every position of 8 short templates (one per tokeniser mode); every single-fragment mutant again inside 11 wrappers (embed body, embed block, macro, block, capture, verbatim, comment, interpolation, if/else, for, filter); unclosed alternations of every pair of 12 openers (quote, #{, brackets, delimiters ...) to depth 60 / 3000; nesting ladders (balanced, open-only and close-only, incl. strings nested in interpolations) to depth 200 (quick) / 9000 (thorough); flat chains of 600 and 1500 (thorough: up to 100000) repetitions of 41 cheap elements (prefix operators, operators of either associativity, accessors, filters, conditionals, list / hash / argument elements, interpolations, elseif, prints, comments, tags). Each input goes through parse.Parse, core Env.Parse and Twig Env.Parse (3 evaluations). Non-trivial = contains an opening delimiter; distinct = (error kind with numbers stripped, first 12 fragment classes)."
 }
 
 func (p *c01) Assumptions() []string {
